@@ -10,7 +10,8 @@ package main
 //   (b) atomics: single-thread scripts (every result), concurrent add / set / toggle / reset mixes (final value is
 //       the sequential result of some order; for adds: the sum; Set() on an unset flag has exactly one winner;
 //       increments hand out unique tickets; Reset loses nothing; loads never see a torn value);
-//   (c) executions of ESDTNFTAddURI / ESDTNFTUpdateAttributes / ESDTNFTCreate / SaveKeyValue racing with
+//   (c) executions of ESDTNFTAddURI / ESDTNFTUpdateAttributes / ESDTNFTCreate / SaveKeyValue / ESDTNFTTransfer and
+//       MultiESDTNFTTransfer (cross-shard sender side) racing with
 //       GasScheduleChange (factory) and direct SetNewGasConfig between two schedules with pairwise distinct prices:
 //       every successful execution's charge equals the formula under exactly ONE schedule; epoch notifications
 //       race with IsActive;
@@ -1197,6 +1198,79 @@ func c19MakeSched(base uint64) *c19Sched {
 var c19GasField = map[string]string{
 	"ESDTNFTAddURI": "ESDTNFTAddURI", "ESDTNFTUpdateAttributes": "ESDTNFTUpdateAttributes",
 	"ESDTNFTCreate": "ESDTNFTCreate", "SaveKeyValue": "SaveKeyValue",
+	"ESDTNFTTransfer": "ESDTNFTTransfer", "MultiESDTNFTTransfer": "ESDTNFTMultiTransfer",
+}
+
+// c19Coordinator: two shards; addresses starting with 0xD5 live on shard 1, everything else on shard 0 (self)
+type c19Coordinator struct{}
+
+func (c19Coordinator) NumberOfShards() uint32 { return 2 }
+func (c19Coordinator) ComputeId(a []byte) uint32 {
+	if len(a) > 0 && a[0] == 0xD5 {
+		return 1
+	}
+	return 0
+}
+func (c19Coordinator) SelfId() uint32                        { return 0 }
+func (c19Coordinator) SameShard(_, _ []byte) bool            { return false }
+func (c19Coordinator) CommunicationIdentifier(uint32) string { return "0_1" }
+func (c19Coordinator) IsInterfaceNil() bool                  { return false }
+
+// c19Build is c18Build with the two-shard coordinator (the NFT transfers are then cross-shard on the sender side)
+func c19Build(gas map[string]map[string]uint64, activation uint32) (*c18World, error) {
+	w := &c18World{notifier: &c18Notifier{}, accounts: c18NewAccounts()}
+	f, err := builtInFunctions.NewBuiltInFunctionsFactory(builtInFunctions.ArgsCreateBuiltInFunctionContainer{
+		GasMap:                              gas,
+		MapDNSAddresses:                     map[string]struct{}{},
+		Marshalizer:                         c18Marshalizer{},
+		Accounts:                            w.accounts,
+		ShardCoordinator:                    c19Coordinator{},
+		EpochNotifier:                       w.notifier,
+		ESDTNFTImprovementV1ActivationEpoch: activation,
+	})
+	if err != nil {
+		return nil, err
+	}
+	w.factory = f
+	w.container, err = f.CreateBuiltInFunctionContainer()
+	if err != nil {
+		return nil, err
+	}
+	return w, nil
+}
+
+// c19PayloadBytes: total length of the marshalled NFT payloads in the cross-shard message emitted by the sender side
+// (ESDTNFTTransfer@tok@nonce@qty@PAYLOAD..., MultiESDTNFTTransfer@n@(tok@nonce@PAYLOAD)*)
+func c19PayloadBytes(out *vmcommon.VMOutput, dst []byte, multi bool) (uint64, int, error) {
+	oa := out.OutputAccounts[string(dst)]
+	if oa == nil || len(oa.OutputTransfers) != 1 {
+		return 0, 0, errors.New("no cross-shard message emitted")
+	}
+	parts := strings.Split(string(oa.OutputTransfers[0].Data), "@")
+	dec := func(i int) ([]byte, error) {
+		if i >= len(parts) {
+			return nil, errors.New("short message")
+		}
+		return hex.DecodeString(parts[i])
+	}
+	if !multi {
+		p, err := dec(4)
+		return uint64(len(p)), 1, err
+	}
+	nb, err := dec(1)
+	if err != nil {
+		return 0, 0, err
+	}
+	n := int(new(big.Int).SetBytes(nb).Uint64())
+	total := uint64(0)
+	for i := 0; i < n; i++ {
+		p, err := dec(4 + 3*i)
+		if err != nil {
+			return 0, 0, err
+		}
+		total += uint64(len(p))
+	}
+	return total, n, nil
 }
 
 func (s *c19Sched) base(fn string) uint64 { return s.m[vmcommon.BuiltInCostString][c19GasField[fn]] }
@@ -1205,6 +1279,8 @@ type c19Exec struct {
 	Fn      string `json:"function"`
 	Len     uint64 `json:"persisted_bytes"`
 	Chg     uint64 `json:"stored_bytes"`
+	N       uint64 `json:"base_cost_multiplier"`
+	Copy    uint64 `json:"copied_payload_bytes"`
 	Charge  uint64 `json:"charge"`
 	Err     string `json:"error,omitempty"`
 	Worker  int    `json:"worker"`
@@ -1219,7 +1295,7 @@ type c19GasStats struct {
 func c19GasRound(c *ctx, a, b *c19Sched, gs *c19GasStats, emitCases int) {
 	rng := c.rng
 	act := uint32(rng.Intn(4))
-	w, err := c18Build(a.m, map[string]struct{}{}, false, act, false)
+	w, err := c19Build(a.m, act)
 	if err != nil {
 		c19Fail(c, "factory-error", "factory failed: "+err.Error(), nil)
 		return
@@ -1228,7 +1304,7 @@ func c19GasRound(c *ctx, a, b *c19Sched, gs *c19GasStats, emitCases int) {
 	_, _ = w.accounts.LoadAccount(vmcommon.SystemAccountAddress)
 	w.accounts.create = false
 	fns := map[string]vmcommon.BuiltinFunction{}
-	for _, n := range []string{"ESDTNFTAddURI", "ESDTNFTUpdateAttributes", "ESDTNFTCreate", "SaveKeyValue", "ESDTSetRole", "MultiESDTNFTTransfer"} {
+	for _, n := range []string{"ESDTNFTAddURI", "ESDTNFTUpdateAttributes", "ESDTNFTCreate", "SaveKeyValue", "ESDTSetRole", "MultiESDTNFTTransfer", "ESDTNFTTransfer"} {
 		f, err := w.container.Get(n)
 		if err != nil {
 			c19Fail(c, "registry-get", "Get("+n+"): "+err.Error(), nil)
@@ -1239,6 +1315,11 @@ func c19GasRound(c *ctx, a, b *c19Sched, gs *c19GasStats, emitCases int) {
 	nWorkers := 1 + rng.Intn(12)
 	perWorker := 3 + rng.Intn(10)
 	tok := []byte("NFT-c19abc")
+	// a semi-fungible token with a large quantity and LARGE metadata (load, save and marshal of it lie between the
+	// read of the base cost and the read of the data-copy price of the transfer functions), sent 1 at a time to
+	// another shard
+	sft := []byte("SFT-c19def")
+	dst := bytes.Repeat([]byte{0xD5}, 32)
 	type job struct {
 		fn   string
 		args [][]byte
@@ -1255,13 +1336,36 @@ func c19GasRound(c *ctx, a, b *c19Sched, gs *c19GasStats, emitCases int) {
 				return
 			}
 		}
+		for _, role := range []string{vmcommon.ESDTRoleNFTCreate, vmcommon.ESDTRoleNFTAddQuantity} {
+			if _, err := fns["ESDTSetRole"].ProcessBuiltinFunction(nil, accs[i], c18Call(vmcommon.ESDTSCAddress, addr, sft, []byte(role))); err != nil {
+				c19Fail(c, "gas-setup", "ESDTSetRole failed: "+err.Error(), nil)
+				return
+			}
+		}
+		sftArgs := [][]byte{sft, {1, 0, 0, 0, 0, 0}, []byte("big"), {0}, []byte("h"), rb(2000 + rng.Intn(6000))}
+		for k, n := 0, 4+rng.Intn(8); k < n; k++ {
+			sftArgs = append(sftArgs, rb(500+rng.Intn(1000)))
+		}
+		if _, err := fns["ESDTNFTCreate"].ProcessBuiltinFunction(accs[i], nil, c18Call(addr, addr, sftArgs...)); err != nil {
+			c19Fail(c, "gas-setup", "ESDTNFTCreate (SFT) failed: "+err.Error(), nil)
+			return
+		}
 		// nonce 1 exists before the race starts
 		if _, err := fns["ESDTNFTCreate"].ProcessBuiltinFunction(accs[i], nil, c18Call(addr, addr, tok, []byte{1}, []byte("n"), []byte{0}, []byte("h"), []byte("at"), []byte("u"))); err != nil {
 			c19Fail(c, "gas-setup", "ESDTNFTCreate failed: "+err.Error(), nil)
 			return
 		}
 		for j := 0; j < perWorker; j++ {
-			switch rng.Intn(4) {
+			switch rng.Intn(7) {
+			case 4, 5:
+				jobs[i] = append(jobs[i], job{"ESDTNFTTransfer", [][]byte{sft, {1}, {1}, dst}})
+			case 6:
+				n := 1 + rng.Intn(3)
+				args := [][]byte{dst, {byte(n)}}
+				for k := 0; k < n; k++ {
+					args = append(args, sft, []byte{1}, []byte{1})
+				}
+				jobs[i] = append(jobs[i], job{"MultiESDTNFTTransfer", args})
 			case 0:
 				args := [][]byte{tok, {1}}
 				for k, n := 0, 1+rng.Intn(3); k < n; k++ {
@@ -1305,7 +1409,7 @@ func c19GasRound(c *ctx, a, b *c19Sched, gs *c19GasStats, emitCases int) {
 		aux.Add(1)
 		go func(g int) {
 			defer aux.Done()
-			names := []string{"ESDTNFTAddURI", "ESDTNFTUpdateAttributes", "ESDTNFTCreate", "SaveKeyValue", "MultiESDTNFTTransfer"}
+			names := []string{"ESDTNFTAddURI", "ESDTNFTTransfer", "ESDTNFTUpdateAttributes", "MultiESDTNFTTransfer", "ESDTNFTCreate", "ESDTNFTTransfer", "SaveKeyValue", "MultiESDTNFTTransfer"}
 			for i := g; gosync.LoadInt32(&stop) == 0; i++ {
 				s := a
 				if (i/len(names))%2 == 0 {
@@ -1354,7 +1458,7 @@ func c19GasRound(c *ctx, a, b *c19Sched, gs *c19GasStats, emitCases int) {
 	c19Go(nWorkers, func(t int) {
 		acc := accs[t]
 		for _, jb := range jobs[t] {
-			ex := c19Exec{Fn: jb.fn, Worker: t}
+			ex := c19Exec{Fn: jb.fn, Worker: t, N: 1}
 			switch jb.fn {
 			case "ESDTNFTAddURI":
 				for _, u := range jb.args[2:] {
@@ -1391,6 +1495,13 @@ func c19GasRound(c *ctx, a, b *c19Sched, gs *c19GasStats, emitCases int) {
 				ex.Err = err.Error()
 			} else {
 				ex.Charge = in.GasProvided - out.GasRemaining
+				if jb.fn == "ESDTNFTTransfer" || jb.fn == "MultiESDTNFTTransfer" {
+					cp, n, perr := c19PayloadBytes(out, dst, jb.fn == "MultiESDTNFTTransfer")
+					if perr != nil {
+						ex.Err = "sender side: " + perr.Error()
+					}
+					ex.Copy, ex.N = cp, uint64(n)
+				}
 			}
 			results[t] = append(results[t], ex)
 			if rand.Intn(3) == 0 {
@@ -1411,12 +1522,14 @@ func c19GasRound(c *ctx, a, b *c19Sched, gs *c19GasStats, emitCases int) {
 			}
 		}
 	}
-	pure := func(s *c19Sched, ex c19Exec) uint64 { return s.base(ex.Fn) + ex.Len*s.persist + ex.Chg*s.store }
+	pure := func(s *c19Sched, ex c19Exec) uint64 {
+		return ex.N*s.base(ex.Fn) + ex.Len*s.persist + ex.Chg*s.store + ex.Copy*s.dcopy
+	}
 	na, nb := 0, 0
 	for t := range results {
 		for _, ex := range results[t] {
 			gs.execs++
-			c.note(fmt.Sprintf("exec/%s/%d/%d/%d", ex.Fn, ex.Len, ex.Chg, ex.Charge), true)
+			c.note(fmt.Sprintf("exec/%s/%d/%d/%d/%d/%d", ex.Fn, ex.N, ex.Len, ex.Chg, ex.Copy, ex.Charge), true)
 			c.count("execution-" + ex.Fn)
 			if ex.Err != "" {
 				c19Fail(c, "gas-execution-error-"+ex.Fn, "an execution with valid arguments failed while schedules were changing: "+ex.Err, ex)
@@ -1436,14 +1549,30 @@ func c19GasRound(c *ctx, a, b *c19Sched, gs *c19GasStats, emitCases int) {
 				for bi, sb := range []*c19Sched{a, b} {
 					for pi, sp := range []*c19Sched{a, b} {
 						for si, ss := range []*c19Sched{a, b} {
-							if sb.base(ex.Fn)+ex.Len*sp.persist+ex.Chg*ss.store == ex.Charge {
-								mix = fmt.Sprintf("base cost of schedule %c", 'a'+bi)
-								if ex.Len > 0 {
-									mix += fmt.Sprintf(", persist-per-byte price of schedule %c", 'a'+pi)
+							for di, sd := range []*c19Sched{a, b} {
+								if ex.N*sb.base(ex.Fn)+ex.Len*sp.persist+ex.Chg*ss.store+ex.Copy*sd.dcopy == ex.Charge {
+									mix = fmt.Sprintf("base cost of schedule %c", 'a'+bi)
+									if ex.Len > 0 {
+										mix += fmt.Sprintf(", persist-per-byte price of schedule %c", 'a'+pi)
+									}
+									if ex.Chg > 0 {
+										mix += fmt.Sprintf(", store-per-byte price of schedule %c", 'a'+si)
+									}
+									if ex.Copy > 0 {
+										mix += fmt.Sprintf(", data-copy-per-byte price of schedule %c", 'a'+di)
+									}
 								}
-								if ex.Chg > 0 {
-									mix += fmt.Sprintf(", store-per-byte price of schedule %c", 'a'+si)
-								}
+							}
+						}
+					}
+				}
+				if mix == "" && ex.N > 1 && ex.Copy%ex.N == 0 {
+					// several payloads of one size, each priced separately: k of them by schedule a, the rest by b
+					per := ex.Copy / ex.N
+					for bi, sb := range []*c19Sched{a, b} {
+						for k := uint64(1); k < ex.N; k++ {
+							if ex.N*sb.base(ex.Fn)+per*(k*a.dcopy+(ex.N-k)*b.dcopy) == ex.Charge {
+								mix = fmt.Sprintf("base cost of schedule %c, data-copy-per-byte price of schedule a for %d payload(s) and of schedule b for %d", 'a'+bi, k, ex.N-k)
 							}
 						}
 					}
@@ -1458,7 +1587,12 @@ func c19GasRound(c *ctx, a, b *c19Sched, gs *c19GasStats, emitCases int) {
 				}
 			}
 			c.count("charged-under-" + ex.Verdict)
-			if emitCases > 0 && c.prop == "C19" {
+			if emitCases > 0 && c.prop == "C19" && ex.Copy > 0 {
+				emitCases--
+				c.addCase(fmt.Sprintf("KChargeCopy (%s, %s, %s, %s) (%s, %s, %s, %s) %s %s %s",
+					cN(a.base(ex.Fn)), cN(a.store), cN(a.persist), cN(a.dcopy), cN(b.base(ex.Fn)), cN(b.store), cN(b.persist), cN(b.dcopy),
+					cN(ex.N), cN(ex.Copy), cN(ex.Charge)), fmt.Sprintf("charge of %s sender side (%d transfer(s), %d payload bytes) while schedules changed", ex.Fn, ex.N, ex.Copy))
+			} else if emitCases > 0 && c.prop == "C19" {
 				emitCases--
 				c.addCase(fmt.Sprintf("KCharge (%s, %s, %s, %s) (%s, %s, %s, %s) %s %s %s",
 					cN(a.base(ex.Fn)), cN(a.store), cN(a.persist), cN(a.dcopy), cN(b.base(ex.Fn)), cN(b.store), cN(b.persist), cN(b.dcopy),
@@ -1586,7 +1720,7 @@ func maxInt(a, b int) int {
 	return b
 }
 
-const c19Rule = "Schedules are sampled, not enumerated (the property is partial by design). Each map/container round draws 2-16 goroutines with 1-6 random operations each (Get, Insert/Add, Set/Replace, Remove, Len, Keys over 1-4 keys; nil element and empty name on the container), runs them on a fresh real object released from a barrier with random yields, records call/return timestamps from one global atomic counter and checks the history against the sequential map specification with porcupine (a checker timeout is counted, not failed); a sample of the linearizations found is replayed by the Coq specification. Atomics: single-thread scripts over boundary values (every result compared with the model) and concurrent rounds (sum of adds, unique increment tickets, Reset loses nothing, one winner of Set, final value is some goroutine's last write, no torn loads). Gas: 1-12 workers execute ESDTNFTAddURI / ESDTNFTUpdateAttributes / ESDTNFTCreate / SaveKeyValue on their own accounts while one goroutine flips the factory between two schedules with pairwise distinct prices, two more call SetNewGasConfig directly, one confirms epochs and one reads IsActive; every charge must equal the formula under exactly one schedule. The same workloads are then run in a second binary built with -race for a time budget; any data race report fails. A case is non-trivial when its history has operations of different goroutines overlapping in time (maps), or its programs/inputs are distinct (atomics, executions)."
+const c19Rule = "Schedules are sampled, not enumerated (the property is partial by design). Each map/container round draws 2-16 goroutines with 1-6 random operations each (Get, Insert/Add, Set/Replace, Remove, Len, Keys over 1-4 keys; nil element and empty name on the container), runs them on a fresh real object released from a barrier with random yields, records call/return timestamps from one global atomic counter and checks the history against the sequential map specification with porcupine (a checker timeout is counted, not failed); a sample of the linearizations found is replayed by the Coq specification. Atomics: single-thread scripts over boundary values (every result compared with the model) and concurrent rounds (sum of adds, unique increment tickets, Reset loses nothing, one winner of Set, final value is some goroutine's last write, no torn loads). Gas: 1-12 workers execute ESDTNFTAddURI / ESDTNFTUpdateAttributes / ESDTNFTCreate / SaveKeyValue and the cross-shard sender side of ESDTNFTTransfer / MultiESDTNFTTransfer (a semi-fungible token with large metadata, 1 unit per transfer; charge = n x base + marshalled payload bytes x DataCopyPerByte, payload length read from the emitted message) on their own accounts while one goroutine flips the factory between two schedules with pairwise distinct prices, two more call SetNewGasConfig directly, one confirms epochs and one reads IsActive; every charge must equal the formula under exactly one schedule. The same workloads are then run in a second binary built with -race for a time budget; any data race report fails. A case is non-trivial when its history has operations of different goroutines overlapping in time (maps), or its programs/inputs are distinct (atomics, executions)."
 
 func runC19(c *ctx) {
 	c.header = "From Coq.Strings Require Import String.\nFrom EV Require Import Base.Bytes Concurrency.RWLock Concurrency.MutexMapLin Concurrency.Atomics Concurrency.GasScheduleAtomic Corr.C19.\n"
